@@ -157,7 +157,7 @@ def _growth(job, ctx):
                 sch = built.schema
                 for part in [x for x in position.split(".") if x]:
                     sch = getattr(sch, part)
-                sch.late = R.mk_field(lspec)
+                sch.late = built._leaf(lspec)
                 before = W.snapshot(cfg, with_ids=True)
                 value = V.dec(v)
                 path = (position + "." if position else "") + "late"
